@@ -46,6 +46,26 @@ CHECKS = {
             "against the exact solver oracle.",
             "element sizes concrete; matches() sub-clause is enumeration + solver oracle, not a for-all claim.",
             "symbolic execution of the real Python + z3 unsat queries; exact LRA oracle for the SVD matcher", "3/C16"),
+    "C01": (TV,
+            "Translation validation of the real accfg-trace-states + accfg-dedup (hoist on/off) on generated accfg "
+            "programs (grammar in DESIGN section 2: full-field setups+launch+await, scf.for, scf.if, func/llvm calls "
+            "with and without the no-effects annotation): original and deduplicated IR are executed by the symbolic IR "
+            "interpreter on one abstract CSR machine on shared paths (arguments, loop bounds/steps, branch conditions, "
+            "initial registers and call clobbers symbolic; loops unrolled to K); z3 proves per launch that every "
+            "field the original had written holds the same value, launch values and the launch/await/call sequence "
+            "are equal. Use of an undefined SSA value is a violation.",
+            "programs exhaustive to 3/4 statements (1 accelerator) + seeded samples (2 accelerators, depth 2/3); "
+            "K=2 quick / 3 thorough; step>0, bounds < 4096; calls clobber all registers unless annotated; passes "
+            "that crash or do not terminate on an input are tallied as rejected.",
+            "bounded symbolic execution of before/after IR on an abstract CSR machine + z3 equivalence queries", "3/C01"),
+    "C07": (OT,
+            "The traced IR produced by the real accfg-trace-states is executed symbolically on the abstract CSR "
+            "machine; every time a !accfg.state value is defined or consumed (setup in/out state, loop block argument "
+            "on each iteration, scf.if/scf.for results, launch state) the real infer_state_of is called and z3 proves "
+            "reg[field]==value for each pair it returns, under the path condition.",
+            "same program grammar, bounds and machine as C01; the machine's clobber rule is independent of the "
+            "compiler's has_accfg_effects.",
+            "bounded symbolic execution + z3 validity of the real analysis result at every program point", "3/C07"),
 }
 
 NOT_YET = "check not built yet (work in progress in this round); no claim is made"
